@@ -229,8 +229,13 @@ def make(task):
     if variant == 'unused':
         deck.surfs.append(dk.Surf(len(deck.surfs) + 1, 'pz', [Fr(7)], bc='*'))
     if variant == 'macro':
-        deck.surfs.append(dk.Surf(len(deck.surfs) + 1, 'rpp', [Fr(-9), Fr(9), Fr(-9), Fr(9), Fr(-9), Fr(9)], bc='*'))
-        deck.cells[0].expr = ('and', deck.cells[0].expr, ('s', -len(deck.surfs)))
+        body = rnd.choice(['rpp', 'rcc', 'sph', 'ell', 'box', 'trc'])
+        prm = {'rpp': [-9, 9, -9, 9, -9, 9], 'rcc': [0, 0, -9, 0, 0, 18, 9], 'sph': [0, 0, 0, 9], 'ell': [0, 0, -2, 0, 0, 2, 9],
+               'box': [-9, -9, -9, 18, 0, 0, 0, 18, 0, 0, 0, 18], 'trc': [0, 0, -9, 0, 0, 18, 9, 8]}[body]
+        nid_ = max(s_.id for s_ in deck.surfs) + 1
+        deck.surfs.append(dk.Surf(nid_, body, [Fr(v) for v in prm], bc=rnd.choice(['*', '+'])))
+        deck.cells[0].expr = ('and', deck.cells[0].expr, ('s', -nid_))
+        deck.macro_body = body
     if rnd.random() < 0.5:
         rnd.shuffle(deck.surfs)          # cards need not be listed in increasing number
     flg = {'skip_deduplication': variant == 'nodedup'}
@@ -274,8 +279,9 @@ def macro_check(task, deck, pre, flg, r):
             res['discharged'] += 1
             continue
         base = list(pre) + p.constraints()
-        v = dr.make_violation(deck, PROP, base, p, None, 'raises', 'a boundary-condition flag on a macrobody is accepted', flg,
-                              sig={'kind': 'macro-flag-accepted'})
+        body = getattr(deck, 'macro_body', 'rpp')
+        v = dr.make_violation(deck, PROP, base, p, None, 'raises', 'a boundary-condition flag on the macrobody %s is accepted' % body.upper(), flg,
+                              sig={'kind': 'macro-flag-accepted', 'parts': 1 if body in ('sph', 'ell') else 'several'})
         (res['violations'] if v else res['harness_errors']).append(v or 'macro flag: not reproduced')
     return res
 
@@ -285,7 +291,7 @@ def run(tier):
     rep.functions = FUNCTIONS
     base = seed() * 104729
     variants = ['dedup', 'nodedup', 'dedup', 'unused', 'macro', 'dedup', 'trquad', 'trquad']
-    nd = 48 if tier == 'quick' else 1500
+    nd = 64 if tier == 'quick' else 1500
     tasks = [(base + i, 2 + i % 2 + (tier != 'quick') * (i % 3 == 0), 2 + i % 2, variants[i % len(variants)]) for i in range(nd)]
     for r in run_pool(worker, tasks):
         rep.merge(r)
